@@ -33,6 +33,8 @@ PROP = {
     "lean_targets": ["MultiProofs.C05", "MultiProofs.GenTieStore"],
     "lean_module": "MultiProofs.C05",
     "theorems": [
+        "Multi.GenTieStore.AR_assign_other_rv_tie",
+        "Multi.GenTieStore.AR_assign_tie",
         "Multi.GenTieStore.assignment_is_the_code",
         "Multi.GenTieStore.SV_assign_same_tie",
         "Multi.GenTieStore.SV_assign_copy_tie",
